@@ -38,7 +38,8 @@ type WInjector struct {
 
 type WFile struct {
 	Name      string
-	Tag       bool // //go:build wireinject
+	ExtPlain  []string `json:",omitempty"` // ext package keys this file imports WITHOUT alias (same-name packages in different files)
+	Tag       bool     // //go:build wireinject
 	Sets      []WSet
 	Injectors []WInjector
 }
@@ -79,7 +80,7 @@ type WOpts struct {
 }
 
 var WireFeatures = []string{"bind", "bind-value-impl", "value", "ivalue", "struct", "struct-fields", "struct-value-consumer", "fieldsof", "fieldsof-value", "fieldsof-ptr",
-	"sets", "nested-sets", "inline-sets", "inline-sets-deep", "struct-unexported-field", "ext-alias-suffix", "ext-name-differs-from-path", "err", "args", "unused-arg", "multi-file", "ext", "bind-foreign-ctor", "bind-split-set", "multi-result"}
+	"sets", "nested-sets", "inline-sets", "inline-sets-deep", "struct-unexported-field", "ext-alias-suffix", "ext-name-differs-from-path", "composite", "same-name-packages-across-files", "err", "args", "unused-arg", "multi-file", "ext", "bind-foreign-ctor", "bind-split-set", "multi-result"}
 
 func WAllowAll(except ...string) map[string]bool {
 	m := map[string]bool{}
@@ -181,7 +182,36 @@ func (g *wgen) freshType(pkg string) TypeID {
 	if pkg != "" {
 		prefix = "E"
 	}
-	switch rapid.IntRange(0, 5).Draw(g.rt, "tkind") {
+	switch rapid.IntRange(0, 6).Draw(g.rt, "tkind") {
+	case 6:
+		if pkg == "" && g.o.Allow["composite"] {
+			// composite types (also over external package types) exercise the type printer of migrate
+			g.w.AddFeature("composite")
+			epkg := ""
+			if len(g.c.Exts) > 0 && rapid.Bool().Draw(g.rt, "compext") {
+				epkg = g.c.Exts[0].Key
+			}
+			ep := "T"
+			if epkg != "" {
+				ep = "E"
+			}
+			s := g.addType(Type{Kind: KStruct, Name: g.name(ep), Pkg: epkg})
+			if rapid.Bool().Draw(g.rt, "compptr") {
+				s = g.ptrTo(s)
+			}
+			switch rapid.IntRange(0, 3).Draw(g.rt, "compkind") {
+			case 0:
+				return g.addType(Type{Kind: KSlice, Elem: s})
+			case 1:
+				return g.addType(Type{Kind: KArray, Elem: s, Len: 2})
+			case 2:
+				ks := g.addType(Type{Kind: KBasic, Basic: "string"})
+				return g.addType(Type{Kind: KMap, Key: ks, HasKey: true, Elem: s})
+			default:
+				return g.addType(Type{Kind: KChan, Elem: s})
+			}
+		}
+		return g.ptrTo(g.addType(Type{Kind: KStruct, Name: g.name(prefix), Pkg: pkg}))
 	case 0:
 		return g.addType(Type{Kind: KStruct, Name: g.name(prefix), Pkg: pkg})
 	case 1:
@@ -387,7 +417,7 @@ func (g *wgen) genStruct() {
 	var req []TypeID
 	seen := map[TypeID]bool{}
 	for i := 0; i < nf; i++ {
-		t, ok := g.pick("sfield", func(t TypeID) bool { return !seen[t] && g.c.T(t).Pkg == "" && (g.c.T(t).Kind != KPtr || g.c.T(g.c.T(t).Elem).Pkg == "") })
+		t, ok := g.pick("sfield", func(t TypeID) bool { return !seen[t] })
 		if !ok {
 			break
 		}
@@ -573,10 +603,38 @@ func (g *wgen) assemble() {
 	if g.want("sets", "sets", 50) {
 		nSets = rapid.IntRange(1, 2).Draw(g.rt, "nsets")
 	}
+	// two different packages called util: file 1 imports a/util, file 2 imports b/util, both as
+	// plain `util`; the providers of b/util all live in one set declared in file 2
+	sameName := false
+	usesExt2 := func(u int) bool {
+		return g.units[u].Kind == "prov" && g.c.ProvByID(g.units[u].Prov).Pkg == "ext2"
+	}
+	usesExt1 := func(u int) bool {
+		return g.units[u].Kind == "prov" && g.c.ProvByID(g.units[u].Prov).Pkg == "ext"
+	}
+	if g.c.Ext("ext2") != nil && g.o.MaxFiles >= 2 {
+		for u := range g.units {
+			if usesExt2(u) {
+				sameName = true
+			}
+		}
+	}
+	if sameName {
+		nSets = 1
+		w.AddFeature("sets")
+		w.AddFeature("same-name-packages-across-files")
+	}
 	group := make([]int, len(g.units))
 	for u := range g.units {
 		if nSets > 0 {
 			group[u] = rapid.IntRange(0, nSets).Draw(g.rt, "group")
+		}
+		if sameName {
+			if usesExt2(u) {
+				group[u] = 1
+			} else if usesExt1(u) {
+				group[u] = 0
+			}
 		}
 		if g.units[u].Kind == "bind" && u > 0 {
 			group[u] = group[u-1]
@@ -590,7 +648,7 @@ func (g *wgen) assemble() {
 		}
 	}
 	nested := nSets == 2 && g.want("nested-sets", "nested", 40)
-	inline := nSets >= 1 && g.want("inline-sets", "inlineset", 25)
+	inline := nSets >= 1 && !sameName && g.want("inline-sets", "inlineset", 25)
 	setNames := []string{"", g.name("Set"), g.name("Set")}
 	elemsOf := func(k int) []WElem {
 		var es []WElem
@@ -605,12 +663,16 @@ func (g *wgen) assemble() {
 		return es
 	}
 	nFiles := 1
-	if g.o.MaxFiles > 1 && g.want("multi-file", "multifile", 35) {
+	if g.o.MaxFiles > 1 && (sameName || g.want("multi-file", "multifile", 35)) {
 		nFiles = 2
+		w.AddFeature("multi-file")
 	}
 	w.Files = append(w.Files, WFile{Name: "wire.go", Tag: true})
 	if nFiles == 2 {
 		w.Files = append(w.Files, WFile{Name: "wire_sets.go", Tag: rapid.Bool().Draw(g.rt, "tag2")})
+		if sameName {
+			w.Files[1].ExtPlain = []string{"ext2"}
+		}
 	}
 	setFile := nFiles - 1
 	var direct []WElem
